@@ -81,7 +81,12 @@ P = {
                                   T: ("CfgsDevice", dict(MaxCodes=0, MaxAT=4, MaxRT=4, MaxNow=3, MaxDev=2, Depth=9))},
                 genx={Q: ("CfgsDevice", 4), T: ("CfgsDevice", 5)},
                 sim={Q: ("CfgsDevice", 400, 12), T: ("CfgsDevice", 6000, 20)},
-                simb=dict(MaxCodes=0, MaxAT=10, MaxRT=8, MaxNow=4, MaxDev=3)),
+                simb=dict(MaxCodes=0, MaxAT=10, MaxRT=8, MaxNow=4, MaxDev=3),
+                more=[dict(family="C16b", mc={Q: ("CfgsDevice", dict(MaxCodes=0, MaxAT=3, MaxRT=3, MaxNow=4, MaxDev=1, Depth=8)),
+                                               T: ("CfgsDevice", dict(MaxCodes=0, MaxAT=4, MaxRT=4, MaxNow=4, MaxDev=2, Depth=10))},
+                           genx={Q: ("CfgsDevice", 7), T: ("CfgsDevice", 9)},
+                           sim={Q: ("CfgsDevice", 100, 12), T: ("CfgsDevice", 2000, 18)},
+                           simb=dict(MaxCodes=0, MaxAT=8, MaxRT=8, MaxNow=5, MaxDev=2))]),
     "C17": dict(family="C17", mc={Q: ("CfgsPar", dict(MaxCodes=2, MaxAT=3, MaxRT=2, MaxNow=3, MaxPar=2, Depth=5)),
                                   T: ("CfgsPar", dict(MaxCodes=3, MaxAT=4, MaxRT=3, MaxNow=3, MaxPar=2, Depth=6))},
                 genx={Q: ("CfgsPar", 2), T: ("CfgsPar", 3)},
@@ -310,8 +315,15 @@ def check(prop, tier, seed, replay=None):
     table_cov = None
     import tables
     if prop in tables.ATTACHED:
-        tv, table_cov = tables.run(tables.ATTACHED[prop], prop, tier, seed, binary, wd)
+        key = tables.ATTACHED[prop]
+        tv, table_cov = tables.run(key, prop, tier, seed, binary, wd)
         nviol += tv
+        for extra in tables.CHECKS[key].get("also", []):
+            ev, ecov = tables.run(extra, prop, tier, seed, binary, wd)
+            nviol += ev
+            table_cov["tables"] += ecov["tables"]
+            table_cov["violation_replays"] = table_cov.get("violation_replays", []) + ecov.get("violation_replays", [])
+            table_cov.setdefault("more_specs", []).append({"spec": ecov["spec"], "rows": ecov.get("evaluations")})
 
     # vacuity: the alphabet must have exercised the reasons this property owns
     nontrivial = set()
